@@ -236,6 +236,39 @@ pub fn main(args: &[String]) -> i32 {
         };
         let bn_ml = |m: &bn256::Fq12| *m;
         gt_values::<bn256::Bn256, BnTw>("bn256", deep, &mut out, &bn_gt, &bn_ml);
+        // pairings of points given by their coordinates, for the first-principles ate pairing of AtePairing.tla
+        {
+            use crate::{c10t::d_json, gad::nat_of_big};
+            use midnight_circuits::CircuitField;
+            use num_bigint::BigUint;
+            let ab: Vec<(i64, i64)> = if deep { vec![(1, 1), (2, 3), (-5, 7), (0, 1), (1, 0)] } else { vec![(1, 1), (-3, 2), (0, 1)] };
+            let q2 = |c0: BigUint, c1: BigUint| json!([nat_of_big(&c0), nat_of_big(&c1)]);
+            for (a, b) in ab.iter() {
+                let p = (midnight_curves::G1Projective::generator() * si::<midnight_curves::Fq>(*a)).to_affine();
+                let q = (midnight_curves::G2Projective::generator() * si::<midnight_curves::Fq>(*b)).to_affine();
+                let pj = if bool::from(p.is_identity()) { json!({"id":true,"x":[],"y":[]}) } else { json!({"id":false,"x":nat_of_big(&p.x().to_biguint()),"y":nat_of_big(&p.y().to_biguint())}) };
+                let qj = if bool::from(q.is_identity()) {
+                    json!({"id":true,"x":[[],[]],"y":[[],[]]})
+                } else {
+                    json!({"id":false,"x":q2(q.x().c0().to_biguint(), q.x().c1().to_biguint()),"y":q2(q.y().c0().to_biguint(), q.y().c1().to_biguint())})
+                };
+                let o = Bls12::pairing(&p, &q);
+                writeln!(out, "{}", json!({"ev":"PairPt","engine":"bls12_381","a":a,"b":b,"p":pj,"q":qj,"out":d_json::<BlsTw>(&bls_gt(&o))})).unwrap();
+            }
+            let le = |x: &bn256::Fq| BigUint::from_bytes_le(x.to_repr().as_ref());
+            let q2b = |x: &bn256::Fq2| {
+                let b = x.to_bytes();
+                q2(BigUint::from_bytes_le(&b[0..32]), BigUint::from_bytes_le(&b[32..64]))
+            };
+            for (a, b) in ab.iter() {
+                let p = (bn256::G1::generator() * si::<bn256::Fr>(*a)).to_affine();
+                let q = (bn256::G2::generator() * si::<bn256::Fr>(*b)).to_affine();
+                let pj = if bool::from(p.is_identity()) { json!({"id":true,"x":[],"y":[]}) } else { json!({"id":false,"x":nat_of_big(&le(&p.x)),"y":nat_of_big(&le(&p.y))}) };
+                let qj = if bool::from(q.is_identity()) { json!({"id":true,"x":[[],[]],"y":[[],[]]}) } else { json!({"id":false,"x":q2b(&q.x),"y":q2b(&q.y)}) };
+                let o = bn256::Bn256::pairing(&p, &q);
+                writeln!(out, "{}", json!({"ev":"PairPt","engine":"bn256","a":a,"b":b,"p":pj,"q":qj,"out":d_json::<BnTw>(&bn_gt(&o))})).unwrap();
+            }
+        }
     }
     0
 }
